@@ -102,7 +102,14 @@ fn run_damaged(h: &History, flips: &[u16], cx: &mut Cx) -> CaseResult {
     std::fs::create_dir_all(cx.dir("r")).unwrap();
     let pristine = cx.dir("pristine");
     copy_dir(&w.arch, &pristine);
-    let complete: Vec<(u32, &tree::Tree)> = w.complete_bands();
+    // Versions with a well-formed tail: a band closed only by the zero-length leftover of a
+    // killed tail write carries no hunk count, so a missing trailing hunk is undetectable.
+    let pre = format::scan(&pristine);
+    let complete: Vec<(u32, &tree::Tree)> = w
+        .complete_bands()
+        .into_iter()
+        .filter(|(id, _)| pre.bands.get(id).map(|b| b.tail.present_nonempty()).unwrap_or(false))
+        .collect();
     if complete.is_empty() {
         cx.label("damaged-no-complete-band");
         return Ok(());
